@@ -426,13 +426,14 @@ def probe_series(tr: Trace, market) -> None:
         else:
             errs.append(("future_allowed", f"{g}({desc}) at time {t} was answered with {v!r}"))
     if isinstance(market, IndexMarket):
-        for g in ("get_index", "get_market_index", "get_fundamental_index", "compute_market_index"):
-            try:
-                getattr(market, g)(t + 1)
-            except Exception:  # noqa: BLE001
-                tr.count("future_refused")
-            else:
-                errs.append(("future_allowed", f"index {g}({t + 1}) at time {t}"))
+        for g in ("get_index", "get_market_index", "get_fundamental_index", "compute_market_index", "compute_fundamental_index"):
+            for dt in dts:
+                try:
+                    v = getattr(market, g)(t + dt)
+                except Exception:  # noqa: BLE001
+                    tr.count("future_refused")
+                else:
+                    errs.append(("future_allowed", f"index {g}({t}+{dt}) at time {t} returned {v!r}"))
     compare_with_previous_snapshot(tr, market, t, inclusive=False)
 
 
